@@ -394,6 +394,9 @@ def run(check, ctx):
     # both GHASH implementations against the same reference (hence against each other)
     from . import c_ghash
     c_ghash.ghash_tables(check, ctx)
+    # AES.c and AESNI.c interpreted side by side (AES-NI instructions modelled from the Intel SDM)
+    from . import c_aes
+    c_aes.aes_tables(check, ctx)
     check.floor("K-pw", 8)
     check.floor("S", 6)
     check.floor("M", 4)
